@@ -56,3 +56,17 @@ func VerifRunner(w io.Writer, pe, se bool) *runner.Runner {
 	return buildRunner(runnerPayload{writer: w, version: "", buildInfo: "", paramsExistActive: pe, servicesExistActive: se,
 		inputPatterns: nil, outputFile: "", stub: false})
 }
+
+// VerifService returns a service of a fresh self-generated container (static wiring dump).
+func VerifService(id string) (any, error) {
+	c := gontainer.New()
+	ws := container.NewService()
+	ws.SetValue(io.Discard)
+	c.OverrideService("writer", ws)
+	c.OverrideParam("version", container.NewDependencyValue(""))
+	c.OverrideParam("buildInfo", container.NewDependencyValue(""))
+	c.OverrideParam("inputPatterns", container.NewDependencyValue([]string{}))
+	c.OverrideParam("outputFile", container.NewDependencyValue(""))
+	c.OverrideParam("stub", container.NewDependencyValue(false))
+	return c.Get(id)
+}
